@@ -153,10 +153,15 @@ def run_rules(ctx, res):
     param = printer["inputs"][0]["pat"]["name"]
     body = printer["body"]["stmts"]
     okp = False
+    pexpr = None
     if len(body) == 1 and body[0]["k"] == "ExprStmt":
-        root, chain = method_chain(body[0]["expr"])
+        pexpr = body[0]["expr"]
+    elif len(body) == 2 and body[0]["k"] == "Let" and body[0]["pat"].get("k") == "PIdent" and body[0].get("init") is not None and body[1]["k"] == "ExprStmt" and ident_of(body[1]["expr"]) == body[0]["pat"]["name"]:
+        pexpr = body[0]["init"]  # `let out = <chain>; out` (also what an accumulator loop is read as)
+    if pexpr is not None:
+        root, chain = method_chain(pexpr)
         names = [c[1] for c in chain if c[0] == "call"]
-        if ident_of(root) == param and names == ["iter", "map", "collect"]:
+        if ident_of(root) == param and names in (["iter", "map", "collect"], ["into_iter", "map", "collect"]):
             clo = [c for c in chain if c[1] == "map"][0][2][0]
             if clo["k"] == "Closure" and len(clo["inputs"]) == 1 and clo["body"]["k"] == "Macro" and clo["body"]["name"] == "format":
                 a = clo["body"]["args"]
